@@ -98,6 +98,10 @@ type scenario struct {
 	ForeignDiff string `json:"foreignDiff,omitempty"`
 	// Referenced: our claim's spec.resourceRef names the pre-existing XR.
 	Referenced bool `json:"referenced,omitempty"`
+	// RefVersion: the API version recorded in the pre-existing spec.resourceRef ("" = the current one, v1).
+	// Another served version of the same group/kind (a ref written before the XRD's referenceable
+	// version was bumped) still names the same XR.
+	RefVersion string `json:"refVersion,omitempty"`
 	// ForeignReconciled: the XR controller reconciled the pre-existing XR before the history starts.
 	ForeignReconciled bool `json:"foreignReconciled,omitempty"`
 	Composed          int  `json:"composed"` // templates in the composition (0 or 1)
@@ -162,6 +166,9 @@ func genScenario() *rapid.Generator[scenario] {
 		if sc.Pre != preNone {
 			sc.Referenced = rapid.IntRange(0, 3).Draw(t, "referenced") != 0
 			sc.ForeignReconciled = rapid.Bool().Draw(t, "foreignReconciled")
+			if sc.Referenced {
+				sc.RefVersion = rapid.SampledFrom([]string{"", "", "v1alpha1"}).Draw(t, "refVersion")
+			}
 		}
 		sc.Composed = rapid.IntRange(0, 1).Draw(t, "composed")
 		sc.Taken = rapid.SampledFrom([]int{0, 0, 1, 2}).Draw(t, "taken")
@@ -460,7 +467,7 @@ func newWorld(sc scenario, fail func(string, ...any)) *world {
 	if sc.Referenced {
 		ref = preName
 	}
-	if err := user.Create(ctx, newClaim(sc.Claim, sc.Params, sc.Labels, sc.Annotations, sc.DeletePolicy, ref)); err != nil {
+	if err := user.Create(ctx, newClaim(sc.Claim, sc.Params, sc.Labels, sc.Annotations, sc.DeletePolicy, ref, sc.RefVersion)); err != nil {
 		panic(err)
 	}
 	w.check("setup")
@@ -531,7 +538,7 @@ func composition(n int) *v1.Composition {
 	return c
 }
 
-func newClaim(id claimID, params, labels, anns map[string]string, deletePolicy, ref string) *ucl.Unstructured {
+func newClaim(id claimID, params, labels, anns map[string]string, deletePolicy, ref string, refVersion ...string) *ucl.Unstructured {
 	cm := ucl.New(ucl.WithGroupVersionKind(verifenv.ClaimGVKDefault))
 	cm.SetNamespace(id.NS)
 	cm.SetName(id.Name)
@@ -550,7 +557,11 @@ func newClaim(id claimID, params, labels, anns map[string]string, deletePolicy, 
 		spec["compositeDeletePolicy"] = deletePolicy
 	}
 	if ref != "" {
-		spec["resourceRef"] = map[string]any{"apiVersion": "example.org/v1", "kind": xrKind, "name": ref}
+		ver := "v1"
+		if len(refVersion) > 0 && refVersion[0] != "" {
+			ver = refVersion[0]
+		}
+		spec["resourceRef"] = map[string]any{"apiVersion": "example.org/" + ver, "kind": xrKind, "name": ref}
 	}
 	cm.Object["spec"] = spec
 	return cm
@@ -1050,6 +1061,9 @@ func TestVerifC06Sweep(t *testing.T) {
 		rec.Eval()
 		rec.Label("config=" + sc.config())
 		rec.Label("pre=" + sc.Pre + fmt.Sprintf("/referenced=%v", sc.Referenced))
+		if sc.RefVersion != "" {
+			rec.Label("ref-apiVersion=other-served-version/" + sc.Pre)
+		}
 		rec.Label("stage=" + stage)
 		fail := func(f string, a ...any) { t.Fatalf(f, a...) }
 		w := newWorld(sc, fail)
@@ -1177,6 +1191,9 @@ func TestVerifC06Histories(t *testing.T) {
 		rec.Eval()
 		rec.Label("config=" + sc.config())
 		rec.Label("pre=" + sc.Pre + fmt.Sprintf("/referenced=%v", sc.Referenced))
+		if sc.RefVersion != "" {
+			rec.Label("ref-apiVersion=other-served-version/" + sc.Pre)
+		}
 		w := newWorld(sc, func(f string, a ...any) { t.Fatalf(f, a...) })
 		w.excluded = rec.Excluded
 		// The history starts at a generated stage (reached by fault-free steps).
@@ -1398,37 +1415,39 @@ func TestVerifC06SanityForeign(t *testing.T) {
 				if pre == preForeignOrganic && diff == "kind" {
 					continue
 				}
-				sc := base
-				sc.Pre, sc.ForeignDiff, sc.Referenced = pre, diff, true
-				w := newWorld(sc, func(f string, a ...any) { t.Fatalf(f, a...) })
-				w.ssaNow = sc.SSA
-				name := refName(w.sim.Get(sc.Claim.key()))
-				before := verifsim.ObjDigest(w.sim.Get(w.env.XRKey(name)))
-				for i := 0; i < 2; i++ {
-					_, _ = w.claimReconcile(sc.Claim, nil, 0, nil)
-					w.check("sanity foreign")
-				}
-				cm := w.sim.Get(sc.Claim.key())
-				// The refusal must surface; the wording of the message is not part of the property, so only the
-				// structure is judged: the claim carries Synced=False.
-				surfaced := false
-				if l, ok := verifsim.Nested(cm, "status", "conditions").([]any); ok {
-					for _, e := range l {
-						if m, ok := e.(map[string]any); ok && m["type"] == "Synced" && m["status"] == "False" {
-							surfaced = true
+				for _, refVersion := range []string{"", "v1alpha1"} {
+					sc := base
+					sc.Pre, sc.ForeignDiff, sc.Referenced, sc.RefVersion = pre, diff, true, refVersion
+					w := newWorld(sc, func(f string, a ...any) { t.Fatalf(f, a...) })
+					w.ssaNow = sc.SSA
+					name := refName(w.sim.Get(sc.Claim.key()))
+					before := verifsim.ObjDigest(w.sim.Get(w.env.XRKey(name)))
+					for i := 0; i < 2; i++ {
+						_, _ = w.claimReconcile(sc.Claim, nil, 0, nil)
+						w.check("sanity foreign")
+					}
+					cm := w.sim.Get(sc.Claim.key())
+					// The refusal must surface; the wording of the message is not part of the property, so only the
+					// structure is judged: the claim carries Synced=False.
+					surfaced := false
+					if l, ok := verifsim.Nested(cm, "status", "conditions").([]any); ok {
+						for _, e := range l {
+							if m, ok := e.(map[string]any); ok && m["type"] == "Synced" && m["status"] == "False" {
+								surfaced = true
+							}
 						}
 					}
-				}
-				if !surfaced {
-					t.Fatalf("%s %s/%s: refusal not surfaced on the claim: %s", sc.config(), pre, diff, verifsim.ObjDigest(cm))
-				}
-				w.apply(step{Kind: "delete"})
-				for i := 0; i < 2; i++ {
-					_, _ = w.claimReconcile(sc.Claim, nil, 0, nil)
-					w.check("sanity foreign delete")
-				}
-				if after := verifsim.ObjDigest(w.sim.Get(w.env.XRKey(name))); after != before {
-					t.Fatalf("%s %s/%s: foreign XR changed:\n before %s\n after  %s", sc.config(), pre, diff, before, after)
+					if !surfaced {
+						t.Fatalf("%s %s/%s: refusal not surfaced on the claim: %s", sc.config(), pre, diff, verifsim.ObjDigest(cm))
+					}
+					w.apply(step{Kind: "delete"})
+					for i := 0; i < 2; i++ {
+						_, _ = w.claimReconcile(sc.Claim, nil, 0, nil)
+						w.check("sanity foreign delete")
+					}
+					if after := verifsim.ObjDigest(w.sim.Get(w.env.XRKey(name))); after != before {
+						t.Fatalf("%s %s/%s (ref version %q): foreign XR changed:\n before %s\n after  %s", sc.config(), pre, diff, refVersion, before, after)
+					}
 				}
 			}
 		}
